@@ -243,6 +243,21 @@ func (h *v16) checkpoint(p *vPoll, where string) {
 	res := h.res
 	N := h.cap
 	res.Obs("quiescent_points", 1)
+	// reported load against the slot counter at the previous reply (see vCounterAtReply)
+	if c := atomic.LoadInt64(&vCounterAtReply); c >= 0 && p.Seq > 0 {
+		tight := c
+		if atomic.LoadInt32(&vReplyKeepsRound) == 0 {
+			tight++
+		}
+		res.Obs("polls_checked_against_counter_at_previous_reply", 1)
+		if int64(p.Clients) > tight {
+			res.Violatef("c16:poll-clients-exceeds-slots-in-use:stale-figure", h.replay(h.caseID(), map[string]interface{}{"poll": p.Raw, "slot_counter_at_previous_reply": c, "previous_reply_was_no_match": atomic.LoadInt32(&vReplyKeepsRound) == 1}),
+				"capacity %d: poll reports Clients=%d, but when the previous poll was answered the slot counter stood at %d and at most %d slots can have been in use since", N, p.Clients, c, tight)
+		}
+		if int64(p.Clients) < c/8*8 {
+			res.Obs("polls_reporting_a_lower_load_than_at_previous_reply", 1)
+		}
+	}
 	res.Obs(fmt.Sprintf("poll_clients_%d", p.Clients), 1)
 	if p.Clients%8 != 0 || p.Clients < 0 {
 		res.Violatef("c16:poll-clients-not-multiple-of-8", h.replay(h.caseID(), map[string]interface{}{"poll": p.Raw}),
@@ -1115,6 +1130,55 @@ func (h *v16) finalProbe() {
 		res.Distinct(fmt.Sprintf("cap%d/full-capacity-probe", N))
 	}
 	res.Obs("probe_counter_minus_slots_while_waiting", vClientCounter()-int64(S))
+	if N >= 9 && k == N {
+		// the reported load must follow the slots DOWN as well: free one slot, hold the
+		// poll that follows (it reports a multiple of 8 >= 8), end sessions until at most
+		// 3 are left, wait until their slots are back, answer "no match": the same round
+		// polls again and must now report 0
+		h.mu.Lock()
+		s0 := h.open[0]
+		h.mu.Unlock()
+		h.endSession(s0, s0.step.Close)
+		h.nextIdx = base + N + 1
+		if p := h.awaitPoll("drain: poll after one session ended"); p != nil {
+			h.checkpoint(p, "drain: poll after one session ended")
+			high := p.Clients
+			for h.openCount() > 3 {
+				h.mu.Lock()
+				s := h.open[0]
+				h.mu.Unlock()
+				h.endSession(s, "client-pc") // immediate: the held poll expires after 27 s
+			}
+			settled := false
+			for end := time.Now().Add(20 * time.Second); time.Now().Before(end); time.Sleep(100 * time.Millisecond) {
+				if vClientCounter() <= int64(h.openCount()+1) {
+					settled = true
+					break
+				}
+			}
+			if !settled {
+				res.Inconcl(fmt.Sprintf("drain: slots of ended sessions not back within 20 s (counter %d, %d sessions open)", vClientCounter(), h.openCount()))
+			}
+			p.replyNoMatch()
+			if q := h.awaitPoll("drain: next poll of the same round"); q != nil {
+				h.checkpoint(q, "drain: next poll of the same round")
+				if settled && high >= 8 {
+					res.Obs("drain_probes", 1)
+					res.Distinct(fmt.Sprintf("cap%d/drain-probe", N))
+					if q.Clients < high {
+						res.Obs("drain_probes_load_followed_down", 1)
+					}
+				}
+				q.replyNoMatch()
+			} else {
+				h.dead = true
+				return
+			}
+		} else {
+			h.dead = true
+			return
+		}
+	}
 	// free everything; the proxy must come back with exactly one slot in use
 	for h.openCount() > 0 {
 		h.mu.Lock()
@@ -1401,6 +1465,7 @@ func TestVerifC16(t *testing.T) {
 	res.RequireObs("probe_full_capacity_reached", 1)
 	res.RequireObs("quiescent_points_exact", 2)
 	if capacity >= 9 {
+		res.RequireObs("drain_probes", 1)
 		res.RequireObs("poll_clients_8", 1)
 	}
 	if capacity >= 17 {
